@@ -246,7 +246,7 @@ func Load(repo, verif string, prop string) (*Loaded, error) {
 						Stubs: fileStubs, ChanCap: fileCaps, Inits: fileInits, TimeMode: timeMode,
 						MaxPaths: atoiDef(kv["maxpaths"], 2000000), PanicOK: kv["panic"] == "ok"}
 					if kv["qtimeout"] == "" {
-						kv["qtimeout"] = "10"
+						kv["qtimeout"] = "20"
 					}
 					if h.Solver == "" {
 						h.Solver = "z3"
